@@ -9,7 +9,7 @@ LEVEL = "proof"
 MANIFEST = {
     "technique": "Coq proof over a hand-written Gallina model of aac.AudioSpecificConfig / aac.ADTSHeader codecs (bit lists) "
                  "+ complete enumeration of the finite domain on both sides + differential correspondence (extracted OCaml vs Go)",
-    "level_text": "Theorems (coq/c18/C18Theorems.v, 34, all closed under the global context): DecodeAudioSpecificConfig(Encode(c)) = c for every canonical configuration "
+    "level_text": "Theorems (coq/c18/C18Theorems.v, 39, all closed under the global context): DecodeAudioSpecificConfig(Encode(c)) = c for every canonical configuration "
                   "(object types 2/5/29, 16 channel configurations, every frequency 0..2^24-1 incl. the 13 table values; general "
                   "bit-level proof) and again by complete enumeration of the table part inside Coq; the two frequency tables are "
                   "mutually inverse; DecodeADTSHeader(Encode(h)) = (h, 0) for all profiles 1..4, 16 frequency indices, 8 channel "
@@ -29,7 +29,16 @@ MANIFEST = {
                   "model an entry is a pure value, so these are immediate; whether the Go objects behave like values (an entry keeps a "
                   "[]byte that CreateEsdsBox does not copy) is EXPLORED: correspondence over generated histories (k = 1..4 builds over "
                   "1..3 init segments, all ordered pairs of the 39 table configurations in the thorough tier) and a history search that "
-                  "reads every entry four ways after the whole history and compares every encode of an entry over time. On the implementation the complete domain is enumerated on every run "
+                  "reads every entry four ways after the whole history and compares every encode of an entry over time. ESDS DESCRIPTOR LAYER "
+                  "(mp4/descriptors.go, modelled completely in coq/c18/C18DescModel.v: FixedSliceReader with accumulated error, size fields "
+                  "of any width incl. the byte/uint64 wraps, optional ES fields, further descriptors of any tag, nested "
+                  "DecoderConfigDescriptors, UnknownData recovery): DecodeDescriptor / DecodeESDescriptor / DecodeEsds invert the encoders on "
+                  "EVERY well-formed value - any nesting depth, any number of descriptors, size fields of 1..255 bytes on every level, one "
+                  "trailing unknown byte (C18_descriptor_roundtrip, C18_es_descriptor_roundtrip, C18_esds_body_roundtrip; induction on "
+                  "depth and on the descriptor lists); the configuration carried as DecoderSpecificInfo by any such esds is read back "
+                  "(C18_esds_config_roundtrip) and the esds SetAACDescriptor builds is one of them (C18_set_aac_esds_general). Explored "
+                  "only: the decoders on malformed descriptors (correspondence: mutated/truncated/random inputs, 0 skipped at descriptor "
+                  "level) and decode -> re-encode = identity on generated well-formed esds shapes (search). On the implementation the complete domain is enumerated on every run "
                   "(exhaustive: true): all table configurations, all 16 x 8 x 8185 ADTS headers, every junk length 0..187.",
     "level_note": "Trusted: Coq kernel, extraction (ExtrOcamlBasic), the OCaml/Go glue, the C13Model transcription of bits.Reader/bits.Writer "
                   "(the bit-list reading used here is proved equivalent to it; C13Model itself is tied to the code by correspondence, here and in C13). Explicit 24-bit frequencies are covered by the general proof and "
@@ -75,6 +84,10 @@ def run(ctx):
         "model of the sample-entry path: coq/c18/C18EntryModel.v (SetAACDescriptor, mp4a entry and esds encoders, the decoder path for "
         "one esds child with DecoderConfig+DecSpecificInfo+SLConfig incl. every size/tag check on that path; anything else is "
         "EUnmodelled and skipped (counted) by the correspondence)",
+        "model of the descriptor layer: coq/c18/C18DescModel.v, a hand transcription of mp4/descriptors.go (all decoders, Size/SizeSize/"
+        "EncodeSW, readSizeSize, writeDescriptorSize) over a model of bits.FixedSliceReader (ReadUint8/16/32, ReadBytes, "
+        "ReadFixedLengthString, SetPos, GetPos, AccError); recursion on fuel = input length + 1, the out-of-fuel outcome is reported "
+        "as a mismatch by the driver; box level of the esds box through decode_box_header (64-bit sizes / empty bodies skipped)",
     ]
     ctx.assumptions += ["the underlying io.Writer never fails; the io.Reader is a bytes.Reader (EOF is the only error)",
                         "Go int is 64 bit (uint(freq) wrap written as mod 2^64)"]
@@ -118,6 +131,12 @@ def run(ctx):
                              "histories (1..4 builds incl. failing ones, 1..3 init segments, second entries on a track, interleaved "
                              "entry / init-segment encodes), every observation and the final state of every entry against hrun"
                              % ("all 1521" if thorough else "a stride of the 1521", n),
+                             "esds descriptors: %d generated ES descriptors (size-field widths 1..4, 5..11 and > 256 bytes, optional "
+                             "fields, 0..3 further / nested descriptors, reserved tags, unknown trailing bytes, inconsistent size "
+                             "fields) through DecodeESDescriptor, DecodeBox(esds) and DecodeBoxSR(esds), each with 3 mutations and "
+                             "all truncations of every fourth; %d descriptors through DecodeDescriptor with varying maxNrBytes; "
+                             "every first / second / flag byte 0..255 on fixed skeletons; %d random strings: decoded value, GetPos, "
+                             "AccError and the re-encoded bytes compared" % (2 * n, 4 * n, n),
                              "streams: %d x (1..4 configurations into one writer, k DecodeAudioSpecificConfig calls on one reader with "
                              "bytes-left after each), %d malformed streams; the same for junk+ADTS headers" % (n, n)],
     }
@@ -180,7 +199,9 @@ def run(ctx):
                        "lines + enumerated headers. search: Decode(Encode(x)) = x and offset = |junk| on the real code over the complete "
                        "domain, SetAACDescriptor -> file encode -> both decoders -> DecodeAudioSpecificConfig; histories: every entry read from memory / "
                        "DecodeBox / DecodeBoxSR / the decoded init segment after the whole history gives its own configuration and every "
-                       "encode of an entry over time gives the same bytes; configurations and headers streamed through one writer/reader" % n)
+                       "encode of an entry over time gives the same bytes; configurations and headers streamed through one writer/reader; "
+                       "any generated well-formed esds shape around a configuration: DecodeESDescriptor / DecodeBox / DecodeBoxSR / the mp4a "
+                       "entry around it give the configuration back and re-encode to the same bytes" % n)
 
 
 def replay(ctx, path):
